@@ -204,6 +204,22 @@ func buildQueries(tier string) ([]qcase, map[string]int) {
 			}
 		}
 	}
+	// expressions that start with a greedy (or lazy) wildcard: the match ends behind the LAST (first) occurrence of
+	// what follows the wildcard, which decides what a follower sees and what a capture binds
+	for _, r1 := range []string{".*a", "(?s).*a", ".*ab", ".*?a", "[ab]*a", ".*(?:a|-)", "(?s:.*)-", ".+b"} {
+		for _, r2 := range []string{"-", "b", "a", "^-", "b$", ".", "a-"} {
+			add("leading wildcard then c>c", ref.Then(ref.A(dataAtom("cdata", "", r1)), ref.A(dataAtom("cdata", "", r2))))
+			add("leading wildcard then c>s", ref.Then(ref.A(dataAtom("cdata", "", r1)), ref.A(dataAtom("sdata", "", r2))))
+			add("leading wildcard then s>c (conv1)", ref.Then(ref.A(dataAtom("sdata", "conv1", r1)), ref.A(dataAtom("cdata", "conv1", r2))))
+		}
+	}
+	for _, cap := range []string{".*(?P<v>[ab])", "(?s).*-(?P<v>.)", ".*?(?P<v>[ab-])", ".*a(?P<v>[ab-]?)"} {
+		for _, use := range []string{"@v@", "^@v@", "@v@$", "-@v@"} {
+			for _, k2 := range []string{"cdata", "sdata"} {
+				add("leading wildcard capture then variable", ref.Then(ref.A(dataAtom("cdata", "", cap)), ref.A(varAtom(k2, use))))
+			}
+		}
+	}
 	// captures reused by a later element
 	for _, cap := range []string{"(?P<v>a)", "(?P<v>[ab])", "(?P<v>.)b", "(?P<v>a|ab)", "(?P<v>[ab]+)", "-(?P<v>.)"} {
 		for _, use := range []string{"@v@", "@v@b", "b@v@", "^@v@", "@v@$", "@v@@v@"} {
